@@ -141,7 +141,7 @@ def gen_case(rng, tier):
                 node = S(mk.next(rng), prio=-1)
             if rng.random() < 0.15 and node['t'] != 'sp' and not node.get('vdel'):
                 node['prio'] = rng.choice([1, -1])
-            c16.put(d, p, node)
+            c16.put(d, _neg(rng, base, p), node)
         if rng.random() < 0.2 and req_paths:
             # act on a parent of a placeholder
             p = rng.choice(req_paths)
@@ -159,6 +159,30 @@ def gen_case(rng, tier):
             docs.append(d)
     style = rng.choice(['flow', 'block'])
     return {'docs': docs, 'texts': [raw_texts.get(i) or emit.emit(x, style) for i, x in enumerate(docs)], 'nt': bool(req_paths) and touched}
+
+
+def _neg(rng, base, p):
+    """the same position spelled with negative list indices (a mapping addressing a list counts from the end as Python does)"""
+    if not any(isinstance(c, int) for c in p) or rng.random() > 0.35:
+        return p
+    out, cur = [], base
+    for c in p:
+        nxt = None
+        if cur is not None and cur.get('t') == 'map':
+            nxt = dict((k, v) for k, v in cur['items']).get(c)
+        elif cur is not None and cur.get('t') == 'seq' and isinstance(c, int) and 0 <= c < len(cur['items']):
+            nxt = cur['items'][c]
+            if rng.random() < 0.7:
+                c = c - len(cur['items'])
+        elif cur is not None and cur.get('t') == 'sp' and isinstance(cur.get('args'), dict):
+            a = cur['args']
+            if a['t'] == 'map':
+                nxt = dict((k, v) for k, v in a['items']).get(c)
+            elif isinstance(c, int) and 0 <= c < len(a['items']):
+                nxt = a['items'][c]
+        out.append(c)
+        cur = nxt
+    return tuple(out)
 
 
 _LINE = re.compile(r"^\s*'(.*)'\s*$")
